@@ -9,7 +9,7 @@ CONSTANTS
   Modes = {"R"}
   Vers = {"new"}
   Ports <- PortsSmall
-  Shapes = {"none", "short", "s00", "s10", "s20"}
+  Shapes = {"none", "short", "s00", "s10", "s20", "p11"}
   TsSet = {1}
   PartKinds = {"inmarker", "ver2", "badmode"}
   Markers = {"Saved"}
